@@ -1,4 +1,4 @@
-"""D60: a rejoining follower never catches up — livelock of the nextIndex reset protocol (C05).
+"""D62: a rejoining follower never catches up — livelock of the nextIndex reset protocol (C05).
 
 A deposed leader F holds one uncommitted entry at index k (old term).  It was cut off silently, so the new leader
 kept "sending" and advanced nextIndex[F] optimistically to its log end + 1; the majority committed more than one
@@ -9,7 +9,7 @@ append batch behind k.  After the heal:
 All batches up to the log end are sent in ONE call of __sendAppendEntries and the leader applies the hints in
 arrival order (syncobj.py: `if reset: self.__raftNextIndex[node] = nextNodeIdx`), so the second hint overwrites the
 first on every round, for ever: F stays behind although every message is delivered and ticks are timely.
-Repair (fixes/D60-probe-one-batch-until-confirmed.diff): only one batch is sent to a node that has not confirmed
+Repair (fixes/D62-probe-one-batch-until-confirmed.diff): only one batch is sent to a node that has not confirmed
 the entry before it (matchIndex < prevLogIdx); pipelining resumes after the first acknowledgement.
 
 Monitor = the C05 statement: after heal + 40 raftMaxTimeout of quiet time every connected voter has the leader's
@@ -74,7 +74,7 @@ def scenario(repo, seed=3):
 def run(ctx):
     t0 = time.time()
     sim, viols, info = scenario(ctx.repo)
-    return result("witness.d60_reset_hint_livelock", tag(viols, "d60_reset_hint_livelock", {}),
+    return result("witness.d62_reset_hint_livelock", tag(viols, "d62_reset_hint_livelock", {}),
                   dict(info, schedule_events=len(sim.trace)), t0)
 
 
